@@ -49,6 +49,9 @@ def long_case():
     def build(draw):
         c = draw(case())
         c['sig'] = draw(gens.family_signal(400, 2000, families=('noise', 'walk', 'tones', 'amfm', 'levels'), small_bias=False))
+        if c['interp'] != 'splrep':
+            # PCHIP sifts of long noisy records run to 100+ components of up to 1000 iterations each: bound the cost
+            c['sig']['n'] = min(c['sig']['n'], 800)
         return c
     return build()
 
